@@ -24,6 +24,9 @@ Definition op_core (v : val) : val :=
   ebool (sc_core_refutes (d_order (dnth 0 v)) (d_orders (dnth 1 v)) (d_order (dnth 2 v))
                          (dlist dbool (dnth 3 v))).
 
+(* c04.ordered (sequence) -> bool : mirror of _is_ordered_profile_single_crossing (Kendall-tau additivity) *)
+Definition op_ordered (v : val) : val := ebool (ordered_check (d_orders (dnth 0 v))).
+
 Definition ops : optable :=
   [ ("c04.decide", op_decide); ("c04.cdecide", op_cdecide); ("c04.check", op_check);
-    ("c04.seqcheck", op_seqcheck); ("c04.core", op_core) ].
+    ("c04.seqcheck", op_seqcheck); ("c04.core", op_core); ("c04.ordered", op_ordered) ].
